@@ -326,6 +326,7 @@ func computeFlameGraphDiff(t1, t2 *Tree) *prof.FlameGraphDiff {
 	xLeftOffsets := []int64{0}
 	xRightOffsets := []int64{0}
 	nameLocationCache := make(map[string]int64)
+	reviewed := make(map[uint64]bool)
 
 	for len(leftNodes) > 0 && len(rightNodes) > 0 {
 		left := leftNodes[0]
@@ -375,6 +376,11 @@ func computeFlameGraphDiff(t1, t2 *Tree) *prof.FlameGraphDiff {
 			childrenRight, _ := t2.Nodes[right.NodeID]
 			for i := len(childrenLeft) - 1; i >= 0; i-- {
 				childLeft := childrenLeft[i]
+				if reviewed[childLeft.NodeID] {
+					// a node id coming back below itself: a cycle in the stored tree, do not walk it again
+					continue
+				}
+				reviewed[childLeft.NodeID] = true
 				var childRight *TreeNodeV2
 				if i < len(childrenRight) {
 					childRight = childrenRight[i]
